@@ -3,7 +3,8 @@
    the two options in either order) the output keeps type, structure and number of ordinates.
    MODE = "wkt": the tokens of the encoder's text with every number replaced by a placeholder equal the
    canonical rendering of the tree; MODE = "geojson": the JSON tree equals the RFC 7946 object of the
-   geometry with the bbox member of the right arity and values in front. *)
+   geometry with the bbox member of the right arity and values in front (collections, geometries without
+   coordinates and multipoints with an empty member included: GeoJSONOut). *)
 EXTENDS WKTRender, Json, IOUtils
 GJ == INSTANCE GeoJSON
 Recs == ndJsonDeserialize(IOEnv.TRACEFILE)
@@ -20,19 +21,65 @@ MinOf(cs, k) == CHOOSE v \in {cs[i][k] : i \in DOMAIN cs} : \A i \in DOMAIN cs :
 MaxOf(cs, k) == CHOOSE v \in {cs[i][k] : i \in DOMAIN cs} : \A i \in DOMAIN cs : v >= cs[i][k]
 BBoxOf(g) == LET cs == FlatC(g.t, g.body)  n == IF g.l \in {"XYZ", "XYZM"} THEN 3 ELSE 2 IN
              [k \in 1..(2 * n) |-> IF k <= n THEN MinOf(cs, k) ELSE MaxOf(cs, k - n)]
-WithBBox(g) == LET o == GJ!EncGeom(g) IN
-               GJ!Obj(<< <<"bbox", GJ!Arr([k \in DOMAIN BBoxOf(g) |-> GJ!Num(BBoxOf(g)[k])])>> >> \o o[2])
+\* ---- gap-free structure rules
+\* a MultiPoint member without coordinates: the plain encoder writes null, the digit-limited one an empty array - either way a
+\* member with no ordinates (the property fixes the structure, not this spelling)
+RECURSIVE EncAlt(_)
+EncAlt(g) ==
+  IF g.t = "GC" THEN GJ!Obj(<< <<"geometries", GJ!Arr([k \in DOMAIN g.body |-> EncAlt(g.body[k])])>>, <<"type", GJ!Str("GeometryCollection")>> >>)
+  ELSE IF g.t = "MPT" THEN GJ!Obj(<< <<"coordinates", GJ!Arr([k \in DOMAIN g.body |-> IF g.body[k] = GJ!NIL THEN GJ!Arr(<<>>) ELSE GJ!ECoord(g.body[k])])>>,
+                                     <<"type", GJ!Str("MultiPoint")>> >>)
+  ELSE GJ!EncGeom(g)
+Encs(g) == {GJ!EncGeom(g), EncAlt(g)}
+BBoxMember(g) == <<"bbox", GJ!Arr([k \in DOMAIN BBoxOf(g) |-> GJ!Num(BBoxOf(g)[k])])>>
+WithBBoxes(g) == {GJ!Obj(<<BBoxMember(g)>> \o o[2]) : o \in Encs(g)}
+RECURSIVE HasCoordsGJ(_)
+HasCoordsGJ(g) == IF g.t = "GC" THEN \E k \in DOMAIN g.body : HasCoordsGJ(g.body[k])
+                  ELSE IF g.t = "PT" THEN g.body # <<>> ELSE FlatC(g.t, g.body) # <<>>
+\* a collection with a bounding box: the members' layouts may differ (or be none the format has a box for), so only this is
+\* demanded: an error, or the unchanged collection plus a bbox member of 4 or 6 numbers
+NumArr(j, lens) == j[1] = "a" /\ Len(j[2]) \in lens /\ \A k \in DOMAIN j[2] : j[2][k][1] \in {"n", "x"}
+CollWithBBoxOK(g, j) ==
+  /\ j[1] = "o" /\ GJ!Has(j, "bbox") /\ NumArr(GJ!Get(j, "bbox"), {4, 6})
+  /\ GJ!Obj(SelectSeq(j[2], LAMBDA kv : kv[1] # "bbox")) \in Encs(g)
+GeoJSONOut(g, o) ==
+  IF ~o.bbox THEN (IF o.err # "" THEN "geojson|encode-error" ELSE IF o.json \notin Encs(g) THEN "geojson|structure-changed" ELSE "ok")
+  ELSE IF ~HasCoordsGJ(g) THEN (IF o.err = "" /\ o.json[1] # "o" THEN "geojson|invalid-json" ELSE "ok")   \* a box of nothing: not the property's subject
+  ELSE IF g.t = "GC" THEN (IF o.err = "" /\ ~CollWithBBoxOK(g, o.json) THEN "geojson|collection-bbox" ELSE "ok")
+  ELSE IF o.err # "" THEN "geojson|encode-error"
+  ELSE IF o.json \notin WithBBoxes(g) THEN "geojson|bbox"
+  ELSE "ok"
+\* ---- "the output remains valid WKT": the library's own parser accepts it and returns the same type, structure and number
+\* of ordinates (the dimension of a geometry without any position is not a number of ordinates: left open)
+Lens(t, body) ==
+  CASE t = "PT" -> <<Len(body)>>
+    [] t \in {"LS", "MPT"} -> [k \in DOMAIN body |-> IF body[k] = NILPT THEN -1 ELSE Len(body[k])]
+    [] t \in {"PG", "MLS"} -> [k \in DOMAIN body |-> [j \in DOMAIN body[k] |-> Len(body[k][j])]]
+    [] t = "MPG" -> [k \in DOMAIN body |-> [j \in DOMAIN body[k] |-> [m \in DOMAIN body[k][j] |-> Len(body[k][j][m])]]]
+RECURSIVE SameShape(_, _)
+SameShape(a, b) ==
+  /\ a.t = b.t
+  /\ IF a.t = "GC" THEN Len(a.body) = Len(b.body) /\ \A k \in DOMAIN a.body : SameShape(a.body[k], b.body[k])
+     ELSE Lens(a.t, a.body) = Lens(b.t, b.body)
+RECURSIVE AnyCoord(_)
+AnyCoord(g) ==
+  CASE g.t = "GC" -> \E k \in DOMAIN g.body : AnyCoord(g.body[k])
+    [] g.t = "PT" -> g.body # <<>>
+    [] g.t = "LS" -> g.body # <<>>
+    [] g.t = "MPT" -> \E k \in DOMAIN g.body : g.body[k] # NILPT
+    [] g.t \in {"PG", "MLS"} -> \E k \in DOMAIN g.body : g.body[k] # <<>>
+    [] g.t = "MPG" -> \E k \in DOMAIN g.body : \E j \in DOMAIN g.body[k] : g.body[k][j] # <<>>
+ReparseOK(g, re) == re.ok /\ SameShape(re.tree, Strip(g)) /\ (AnyCoord(g) => re.l = g.l)
 Clause(r) ==
   IF r.ev # "ok" THEN r.ev
   ELSE IF MODE = "wkt" THEN
     (IF \E k \in DOMAIN r.outs : ~r.outs[k].ok THEN "wkt|encode-error"
      ELSE IF \E k \in DOMAIN r.outs : Shape(r.outs[k].toks) \notin {Shape(Render(r.case.g)), Shape(RenderG(r.case.g, TRUE))} THEN "wkt|structure-changed"
+     ELSE IF \E k \in DOMAIN r.outs : ~ReparseOK(r.case.g, r.outs[k].re) THEN "wkt|own-parser"
      ELSE "ok")
   ELSE
-    (IF \E k \in DOMAIN r.outs : r.outs[k].err # "" THEN "geojson|encode-error"
-     ELSE IF \E k \in DOMAIN r.outs : ~r.outs[k].bbox /\ r.outs[k].json # GJ!EncGeom(r.case.g) THEN "geojson|structure-changed"
-     ELSE IF \E k \in DOMAIN r.outs : r.outs[k].bbox /\ r.outs[k].json # WithBBox(r.case.g) THEN "geojson|bbox"
-     ELSE "ok")
+    LET cs == [k \in DOMAIN r.outs |-> GeoJSONOut(r.case.g, r.outs[k])] IN
+    IF \A k \in DOMAIN cs : cs[k] = "ok" THEN "ok" ELSE cs[CHOOSE k \in DOMAIN cs : cs[k] # "ok" /\ \A j \in DOMAIN cs : j < k => cs[j] = "ok"]
 VARIABLES i, bad
 Init == i = 1 /\ bad = 0
 Next == /\ i <= Len(Recs)
